@@ -4,6 +4,7 @@ import itertools
 from . import ex
 from .core import where
 from .ir import AnalysisBroken
+from .cfg import kills as cfg_kills
 
 SMART_WRITE = ('operator=', 'reset', 'swap')
 CONTAINER_OPS = {
@@ -136,11 +137,7 @@ def facts_walk(evs):
             facts = dict(facts)
             facts[ev.atom] = ev.pol
         else:
-            ws = []
-            if ev.kind in ('assign', 'incdec'):
-                ws.append(ev.lhs)
-            elif ev.kind == 'call' and ev.obj is not None and not (ev.key or '').endswith(')const'):
-                ws.append(ev.obj)
+            ws = cfg_kills(ev)
             if ws and facts:
                 nf = {}
                 for a, t in facts.items():
